@@ -3,6 +3,7 @@ package kv
 import (
 	"encoding/binary"
 	"fmt"
+	"math"
 	"strconv"
 
 	"github.com/google/orderedcode"
@@ -89,7 +90,16 @@ func parseValueFromEventKey(key []byte) (string, error) {
 func lookForHeight(conditions []query.Condition) (int64, bool) {
 	for _, c := range conditions {
 		if c.CompositeKey == types.BlockHeightKey && c.Op == query.OpEqual {
-			return c.Operand.(int64), true
+			// the operand may be any kind of value ("block.height = 3.0"); only a
+			// whole number names a height
+			switch h := c.Operand.(type) {
+			case int64:
+				return h, true
+			case float64:
+				if h == math.Trunc(h) && h > 0 && h < math.MaxInt64 {
+					return int64(h), true
+				}
+			}
 		}
 	}
 
